@@ -162,6 +162,10 @@ func csvLivenessSubcheck(prop, prefix string) ([]mc.Violation, map[string]any) {
 	out := fmt.Sprintf("%s/%sw-%d.json", workDir, strings.ToLower(prop), os.Getpid())
 	cmd := exec.Command(os.Args[0], "-test.run", "^TestC20$", "-test.timeout", "0")
 	cmd.Env = append(os.Environ(), "VERIF_C20_ONLY=/csv", "VERIF_C20_SKIP=/early", "VERIF_C20_DRAIN="+drain, "VERIF_C20_EXPORT="+out)
+	if prop == "C07" {
+		// the swap may be unable to take the csv event once (its store write fails): the rpc watcher has to come again
+		cmd.Env = append(cmd.Env, "VERIF_C20_CBFAIL=1")
+	}
 	ob, err := cmd.CombinedOutput()
 	b, rerr := os.ReadFile(out)
 	cov := map[string]any{}
